@@ -19,13 +19,17 @@ type mapSnap struct {
 }
 
 type mapLower struct {
-	h       *H
-	cur     *mapSnap
-	higherN int    // number of LowerLevelUpdate calls
-	offered [][]sx // per call: the ops offered (for C13's in-order-once check)
+	h         *H
+	cur       *mapSnap
+	published *mapSnap // what the collection currently holds as its lower level
+	higherN   int      // number of LowerLevelUpdate calls
+	offered   [][]sx   // per call: the ops offered (for C13's in-order-once check)
 }
 
-func newMapLower(h *H) *mapLower { return &mapLower{h: h, cur: &mapSnap{}} }
+func newMapLower(h *H) *mapLower {
+	e := &mapSnap{}
+	return &mapLower{h: h, cur: e, published: e}
+}
 
 func (m *mapLower) snapshot() moss.Snapshot { return m.cur }
 
